@@ -20,9 +20,10 @@
    * the order of the result dictionary of maybe_result for the non-failing variables is the
      iteration order of a Python set of strings (hash order); the model lists them in variable
      order and results are compared as maps.
-   * pr.is_loop: a While/DoWhile/For node whose body is neither an EmptyStatement nor an empty
-     block.  The typed grammar does not distinguish `;` from break/continue, so [is_loop_stmt]
-     only rejects the empty block; the harness never feeds loops the real syntax_check rejects.
+   * pr.is_loop: a While/DoWhile/For node whose body is not made of EmptyStatements and empty
+     blocks only (PM.Syntax.is_loop models it exactly).  The typed grammar does not distinguish
+     `;` from break/continue, so [is_loop_stmt] only rejects the empty block; the harness never
+     feeds loops the real syntax_check rejects.
    No proofs in this file. *)
 From Coq Require Import String List Bool Arith Ascii.
 From PM Require Import Semiring Poly Rel Analysis.
